@@ -82,6 +82,13 @@ def _classify_use(f, node, level):
         return True, 'local alias %s with encapsulated uses' % name
     if isinstance(p, ast.Return):
         return False, 'the %s is returned from %s' % (what, f.short)
+    if isinstance(p, ast.Call) and node in p.args and isinstance(p.func, ast.Name) and not p.keywords \
+            and p.func.id in ('sorted', 'list', 'tuple', 'set', 'frozenset', 'reversed', 'enumerate', 'min', 'max', 'any', 'all', 'iter'):
+        # a builtin that reads: of the table it sees the ids only, of an id list it builds a fresh container - the table's own lists stay inside
+        return True, '%s() of the %s (read only)' % (p.func.id, what)
+    if isinstance(p, ast.Call) and node in p.args and isinstance(p.func, ast.Attribute) and p.func.attr == 'extend' and isinstance(p.func.value, ast.Name) and level == 1:
+        # some_local_list.extend(id_list): the elements are copied into another list, the table's own list stays inside
+        return True, 'copied into %s (read only)' % p.func.value.id
     if isinstance(p, ast.Call):
         return False, 'the %s is passed to %s' % (what, norm(p.func))
     if isinstance(p, (ast.For, ast.comprehension)) and p.iter is node:
@@ -100,7 +107,7 @@ def run(ctx):
     cg = repo.callgraph()
     ctx.decided = ['C02.1 table writers', 'C02.2 index = generation', 'C02.3 latest lookup', 'C02.4 who creates',
                    'C02.5 no retyping / relabelling', 'C02.6 order inside Message.resolve', 'C02.7 label = f(id, generation)',
-                   'C02.8 creation arguments']
+                   'C02.8 creation arguments', 'C02.9 the table lives as long as its connection (C04.6)']
     ctx.undecided = ['monotonicity / bijectivity of number_to_letter_id (arithmetic, see C14)']
     ctx.assumptions = ['no monkey-patching (checked: no setattr/exec/__dict__ outside the disseminator generator)',
                        'histories are well-formed as in the property quantifier']
@@ -446,6 +453,13 @@ def run(ctx):
             ctx.check(norm(p.outcome[1]) == 'conn.retrieve_object(self.id, -1, self.type)', 'C02.8', 'UnresolvedObject.resolve:returns', f_ures.loc(),
                       'returns the table entry it looked up', 'returns %s' % norm(p.outcome[1])[:100])
     ctx.floor('C02.8', nr, 1, 'retrieve_object call in UnresolvedObject.resolve')
+
+    # ---- C02.9 the table lives as long as its connection ------------------------------------------------------------------
+    # incarnations are counted per connection: a connection that is closed and re-opened in mid-history (or whose messages go to another one)
+    # starts counting again.  That the log back end opens a connection once, forwards every message of its tag to it and closes it only when
+    # the input has ended is C04.6; its findings are findings here.
+    from . import common as _cm2, c04 as _c04
+    _cm2.lift(ctx, 'C02.9', 'table-lives-as-long-as-the-connection', _c04, 'C04', ('C04.6',), 'the object table of a connection must persist for the whole history of its tag', floor=6)
 
     return ('inductive invariant over all histories by writer enumeration: db[k] append-only, db[k][g].generation == g and '
             '.id == k, lookups use index -1; creation only from new-id arguments, typing only via wl_registry.bind. '
